@@ -257,10 +257,16 @@ def eval_case(ctx, case):
         return Verdict.violated("mockery crashed", dict(obs, **r.brief()), tags)
     if inj and inj["stage"] == "template-truncated" and not blocked and not dir_clash:
         # the fault must really have been injected: the helper logs the request it cut short (a stage that injects nothing decides nothing)
-        served = [q for q in server.requests_for("trunc/tr/%d" % case["i"]) if q.endswith(" 200")]
+        import time as _t
+        for _ in range(40):   # the helper prints its request line after the handler returns; its reader thread may lag a moment
+            served = [q for q in server.requests_for("trunc/tr/%d" % case["i"]) if q.endswith(" 200")]
+            if served:
+                break
+            _t.sleep(0.05)
         obs["truncated_transfers_served"] = len(served)
-        if not served and r.exit != 0 and "unexpected EOF" not in (r.err + r.out):
-            return Verdict.inconclusive("the truncated transfer was not served (%s)" % server.requests_for("trunc/tr/%d" % case["i"])[:2])
+        if not served and r.exit != 0 and "unexpected EOF" not in (r.err + r.out) and "must use the same template" not in (r.err + r.out):
+            # (in a shared output file the injected interface's different template is itself refused before anything is fetched: the run fails as it must)
+            return Verdict.inconclusive("the truncated transfer was not served (%s); the run said: %s" % (server.requests_for("trunc/tr/%d" % case["i"])[:2], (r.err + r.out)[-500:]))
     designated = set(outputs.values())
     designated_dirs = set()
     for rel in designated:
